@@ -70,7 +70,8 @@ NumOp(x) == [val |-> NumV(x),
 Nums == << Nan, Inf(1), Inf(-1), Zero(1), Zero(-1), NInt(1), NInt(-1), NInt(2), NInt(-2), NInt(3), NInt(10), NInt(9), NInt(7), NInt(-7),
            R(1, 2), R(-1, 2), R(3, 2), R(-3, 2), R(5, 2), R(-5, 2), R(7, 2), R(11, 2), R(-11, 2), R(1, 4), R(-1, 4), R(3, 4), R(-3, 4),
            R(1, 8), R(9, 8), NInt(100), NInt(-100), R(1, 1024), NInt(4000),
-           Pow2(1, 53), Pow2(1, 63), Pow2(-1, 63), Pow2(1, 64), Pow2(1, 100), Pow2(1, 1023), Pow2(1, -30), Pow2(-1, -1074) >>
+           Pow2(1, 53), Pow2(1, 63), Pow2(-1, 63), Pow2(1, 64), Pow2(1, 100), Pow2(1, 1023), Pow2(1, -30), Pow2(-1, -1074),
+           NamedNum("halfpred"), NamedNum("-halfpred"), NamedNum("odd52"), NamedNum("-odd52") >>
 NumOps == [i \in 1..Len(Nums) |-> NumOp(Nums[i])]
 StrOp(s) == [val |-> StrV(s), e |-> Lit(s)]
 CmpStrs == << <<>>, <<"1", "0">>, <<"9">>, <<"sp", "1", "0", "sp">>, <<"a", "b", "c">>, <<"1", ".", "5">>, <<"t", "r", "u", "e">>,
@@ -94,7 +95,7 @@ RECURSIVE SeqsUpTo(_, _)
 SeqsUpTo(A, n) == IF n = 0 THEN {<<>>} ELSE LET prev == SeqsUpTo(A, n - 1) IN prev \cup {Append(s, c) : s \in prev, c \in A}
 SeqsOf(A, n) == SetToSeq(SeqsUpTo(A, n))
 NumAlpha == {"0", "1", "9", ".", "-", "+", "e", "sp", "nl", "nbsp", "x", "I"}
-StrAlpha == {"a", "b", "sp", "nl", "nbsp", "w2", "w4", "cm"}
+StrAlpha == {"a", "sp", "nl", "nbsp", "w2", "w4", "cm", "wsl"}   \* wsl: not white space, but its code point ends in a white-space byte
 H1 == (StrLen + 1) \div 2
 H2 == StrLen \div 2
 Odd == << <<"I","n","f","i","n","i","t","y">>, <<"-","I","n","f","i","n","i","t","y">>, <<"N","a","N">>, <<"0","x","1","0">>, <<"1","e","3">>,
